@@ -45,6 +45,10 @@ def main():
         problems.append(("obligation", "lake build %s failed: %s" % (" ".join(targets), " | ".join(errs))))
         # the driver may still be usable for the search if it was built
         ok_d, out_d = core.lake_build(["sakura-driver"])
+        if not ok_d and core.restore_committed_gen():
+            # the regenerated tables do not fit the model: search for a failing input with the model of the unchanged code
+            ok_d, out_d = core.lake_build(["sakura-driver"])
+            if ok_d: problems.append(("translator", "the tables regenerated from the source do not build with the model; searching with the committed tables"))
         driver_ok = ok_d
     else:
         driver_ok = True
